@@ -1,11 +1,18 @@
 """Property table: id -> callable(tier) -> exit code."""
-from . import core, reader, writer
+from . import core, reader, writer, conc
 
 BASE_ASSUME = [
     "TLC 1.8.0 and the CommunityModules (Json, IOUtils) are correct",
     "the harness' abstraction functions are correct: independent frame codec (harness/wire), payload identity by deterministic payload streams, error classification, arrival annotation of frames under the scripted transport",
     "the scripted net.Conn (harness/xport) behaves like a legal io.Reader/net.Conn",
     "bounds: only the program spaces named in the MC configs are explored",
+]
+
+
+CONC_ASSUME = [
+    "goroutine attribution of transport operations by goroutine id; schedules are commanded through the verif gates, the verdict is about the observed order",
+    "data-race freedom is observed by the Go race detector on the explored schedules, not proved",
+    "timeliness: a WriteControl is late only beyond its deadline + 5 s",
 ]
 
 
@@ -64,8 +71,9 @@ def c02(tier):
 def c09(tier):
     q = tier == "quick"
     return writer.run_writer_check("C09", tier, [
-        dict(mc=(W, wcfg("close", q)), max_progs=3000 if q else 124800, mult=1),
-    ], assumptions=BASE_ASSUME)
+        dict(mc=(W, wcfg("close", q)), max_progs=2500 if q else 124800, mult=1),
+    ], assumptions=BASE_ASSUME + CONC_ASSUME,
+        extra=lambda: conc.run_conc_check("C09", tier, 600 if q else 20000, 60 if q else 2000))
 
 
 def c10(tier):
@@ -78,6 +86,17 @@ def c10(tier):
         dict(mc=(W, wcfg("conform", q)), max_progs=500 if q else 10000,
              filt=lambda p: any(o["op"] in ("SD", "WC") for o in p["ops"])),
     ], assumptions=BASE_ASSUME, level="model_checking")
+
+
+def c11(tier):
+    import time
+    q = tier == "quick"
+    t0 = time.time()
+    v, cov, _ = conc.run_conc_check("C11", tier, 800 if q else 30000, 150 if q else 4000, race=True)
+    core.write_evidence("C11", tier, "model_checking", cov, time.time() - t0, len(v), BASE_ASSUME + CONC_ASSUME)
+    for x in v:
+        print("VIOLATION property=C11 replay=%s" % x, flush=True)
+    return 1 if v else 0
 
 
 def c19(tier):
@@ -102,7 +121,7 @@ def c20(tier):
     ], assumptions=BASE_ASSUME)
 
 
-TABLE = {"C02": c02, "C03": c03, "C04": c04, "C05": c05, "C06": c06, "C08": c08, "C09": c09, "C10": c10, "C19": c19, "C20": c20}
+TABLE = {"C02": c02, "C03": c03, "C04": c04, "C05": c05, "C06": c06, "C08": c08, "C09": c09, "C10": c10, "C11": c11, "C19": c19, "C20": c20}
 
 # per-property overrides for MANIFEST fields (category, text, note, technique, design_ref)
 INFO = {}
